@@ -252,6 +252,8 @@ type WriteOpts struct {
 	ExtraMeta map[string][]byte
 	// MetaCodecFirst writes avro.codec before avro.schema
 	MetaCodecFirst bool
+	// MetaBlocks > 1 splits the metadata map into that many (positive-count) blocks
+	MetaBlocks int
 }
 
 // WriteContainer writes records (already partitioned into blocks) as a file.
@@ -272,12 +274,26 @@ func WriteContainer(schemaJSON []byte, s *Schema, blocks [][]any, ch Chooser, o 
 	for k, v := range o.ExtraMeta {
 		metas = append(metas, kv{k, v})
 	}
-	b = AppendLong(b, int64(len(metas)))
-	for _, m := range metas {
-		b = AppendLong(b, int64(len(m.k)))
-		b = append(b, m.k...)
-		b = AppendLong(b, int64(len(m.v)))
-		b = append(b, m.v...)
+	nb := o.MetaBlocks
+	if nb < 1 {
+		nb = 1
+	}
+	if nb > len(metas) {
+		nb = len(metas)
+	}
+	per := (len(metas) + nb - 1) / nb
+	for i := 0; i < len(metas); i += per {
+		end := i + per
+		if end > len(metas) {
+			end = len(metas)
+		}
+		b = AppendLong(b, int64(end-i))
+		for _, m := range metas[i:end] {
+			b = AppendLong(b, int64(len(m.k)))
+			b = append(b, m.k...)
+			b = AppendLong(b, int64(len(m.v)))
+			b = append(b, m.v...)
+		}
 	}
 	b = AppendLong(b, 0)
 	b = append(b, o.Sync[:]...)
